@@ -429,6 +429,8 @@ pub struct Run {
     pub switches: usize,
     tx: Option<mpsc::Sender<InterruptSignal>>,
     pub signalled: bool,
+    /// signals sent from outside so far (a user may press Ctrl-C more than once)
+    pub signals_sent: usize,
     /// Stream: FnRefs yielded and not yet dropped.
     held: BTreeMap<usize, FnRef<'static, Node>>,
     /// Stream: a poll is allowed without a wake-up (never polled, or the last poll returned an item).
@@ -436,6 +438,7 @@ pub struct Run {
     pub stream_ended: bool,
     pub stream_dropped: bool,
     pub fails_used: usize,
+    pub spurious_used: usize,
     /// Stream: number of functions yielded so far.
     pub yielded: usize,
 }
@@ -551,11 +554,13 @@ impl Exec {
                     switches: 0,
                     tx: None,
                     signalled: false,
+                    signals_sent: 0,
                     held: BTreeMap::new(),
                     may_poll: false,
                     stream_ended: false,
                     stream_dropped: false,
                     fails_used: 0,
+                    spurious_used: 0,
                     yielded: 0,
                 })
                 .collect(),
@@ -759,6 +764,7 @@ impl Exec {
                     Some(tx) => {
                         let sent = tx.try_send(InterruptSignal).is_ok();
                         self.runs[r].signalled = true;
+                        self.runs[r].signals_sent += 1;
                         self.ev(json!({"ev":"signal","run":run,"sent":sent}));
                         if self.runs[r].cfg.tx_drop {
                             self.runs[r].tx = None;
@@ -783,6 +789,9 @@ impl Exec {
                     self.poll_stream(r, w);
                 } else {
                     let spurious = !self.runs[r].flag.get();
+                    if spurious {
+                        self.runs[r].spurious_used += 1;
+                    }
                     self.poll_call(r, spurious);
                     self.settle();
                 }
@@ -1045,12 +1054,16 @@ impl Exec {
                         // a deferred step left the flag set: a poll is due
                         if run.flag.get() {
                             out.push(Step::Poll { run: id, w: 0 });
+                        } else if x.spurious_polls && run.spurious_used < 2 {
+                            // the task is polled although nothing woke it (a join! / select! sibling did)
+                            out.push(Step::Poll { run: id, w: 0 });
                         }
                         if x.aborts {
                             out.push(Step::Abort { run: id });
                         }
                     }
-                    if run.tx.is_some() && !run.signalled && x.signals && late_ok {
+                    let again = run.signalled && run.signals_sent >= 1 && run.signals_sent < x.max_signals && !run.cfg.tx_drop;
+                    if run.tx.is_some() && (!run.signalled || again) && x.signals && late_ok {
                         out.push(Step::Signal { run: id, defer: false });
                     }
                 }
@@ -1123,6 +1136,8 @@ pub struct ExploreOpts {
     pub multi_waker: bool,
     /// failing completions and signals are offered only once this many functions of the run have returned
     pub late: usize,
+    /// how many times the interrupt signal may be sent from outside (repeated Ctrl-C)
+    pub max_signals: usize,
 }
 
 impl Default for ExploreOpts {
@@ -1140,6 +1155,7 @@ impl Default for ExploreOpts {
             stream_style: 0,
             multi_waker: false,
             late: 0,
+            max_signals: 1,
         }
     }
 }
